@@ -14,8 +14,11 @@ import (
 	"sync/atomic"
 	"time"
 
+	"github.com/ethereum/go-ethereum/rlp"
+
 	"github.com/vechain/thor/v2/block"
 	"github.com/vechain/thor/v2/comm"
+	"github.com/vechain/thor/v2/comm/proto"
 	"github.com/vechain/thor/v2/p2p"
 	"github.com/vechain/thor/v2/p2p/discover"
 
@@ -161,7 +164,18 @@ func (e *env) runBFTCase(c bftCase, via string, seq int) bftResult {
 	remote.importAll(c.remote)
 	le, re := pipe.New()
 	var acts atomic.Int64
-	le.Tap = func(uint64, []byte) { acts.Add(1) }
+	var rounds atomic.Int64 // ancestor searches started by the local node (first probe = its head number)
+	le.Tap = func(code uint64, payload []byte) {
+		acts.Add(1)
+		if code == proto.MsgGetBlockIDByNumber {
+			if env, err := pipe.ParseEnvelope(payload); err == nil && !env.IsResult {
+				var n uint32
+				if rlp.DecodeBytes(env.Payload, &n) == nil && n == localHead.Number() {
+					rounds.Add(1)
+				}
+			}
+		}
+	}
 	re.Tap = func(uint64, []byte) { acts.Add(1) }
 
 	if via == "download" {
@@ -203,8 +217,8 @@ func (e *env) runBFTCase(c bftCase, via string, seq int) bftResult {
 		idle, lastActs, lastBest := 0, int64(-1), local.best().ID()
 		capAt := time.Now().Add(180 * time.Second)
 		for {
-			if local.best().ID() == refBest && (refBest != localHead.ID() || idle >= 120) {
-				break // where the reference node ends (if that is the old head: after six quiet sync ticks)
+			if local.best().ID() == refBest && (refBest != localHead.ID() || idle >= 120 || rounds.Load() >= 3) {
+				break // where the reference node ends (if that is the old head: after three refused rounds or six quiet ticks)
 			}
 			select {
 			case <-lc.Synced():
